@@ -1287,6 +1287,12 @@ class Interp:
                 return [k for k, _ in o.items]
             if o.kind == "ext" and "iter" in o.meta:
                 return list(o.meta["iter"])
+            if o.kind == "symlist" and not o.meta.get("raises_at_end"):
+                n = o.meta["len"]
+                for k in range(0, 5):
+                    if n.c == k or (n.c is None and self.path.known(n.as_int() == k)):
+                        from . import symlist
+                        return [symlist.getitem(self, v, o, mkint(j)) for j in range(k)]
             raise Unsupported(f"iteration over symbolic {o.kind} needs a loop contract")
         if isinstance(v, VBytes):
             n = v.conc_len()
